@@ -149,6 +149,28 @@ fn adjust_pointers(
         .collect()
 }
 
+fn adjust_cstrings(
+    map: &HashMap<String, Vec<usize>>,
+    address: usize,
+    count: usize,
+    subtract: bool,
+) -> HashMap<String, Vec<usize>> {
+    let mut result: HashMap<String, Vec<usize>> = HashMap::new();
+    for (text, cells) in map {
+        let mut moved: Vec<usize> = Vec::new();
+        for cell in cells {
+            let removed = subtract && *cell >= address && *cell - address < count;
+            if !removed {
+                moved.push(adjust_pointer(*cell, address, count, subtract));
+            }
+        }
+        if !moved.is_empty() {
+            result.insert(text.clone(), moved);
+        }
+    }
+    result
+}
+
 impl BinArchive {
     pub fn new(endian: Endian) -> Self {
         BinArchive {
@@ -616,9 +638,11 @@ impl BinArchive {
         let new_text = adjust_text(&self.text, address, amount_in_bytes, false);
         let new_labels = adjust_labels(&self.labels, address, amount_in_bytes, false, ge);
         let new_pointers = adjust_pointers(&self.pointers, address, amount_in_bytes, false, ge);
+        let new_cstrings = adjust_cstrings(&self.cstrings, address, amount_in_bytes, false);
         self.text = new_text;
         self.labels = new_labels;
         self.pointers = new_pointers;
+        self.cstrings = new_cstrings;
         Ok(())
     }
 
@@ -634,9 +658,11 @@ impl BinArchive {
         let new_text = adjust_text(&filtered_text, address, amount_in_bytes, true);
         let new_labels = adjust_labels(&filtered_labels, address, amount_in_bytes, true, ge);
         let new_pointers = adjust_pointers(&filtered_pointers, address, amount_in_bytes, true, ge);
+        let new_cstrings = adjust_cstrings(&self.cstrings, address, amount_in_bytes, true);
         self.text = new_text;
         self.labels = new_labels;
         self.pointers = new_pointers;
+        self.cstrings = new_cstrings;
         Ok(())
     }
 
@@ -651,6 +677,10 @@ impl BinArchive {
             self.labels.remove(&i);
             self.pointers.remove(&i);
         }
+        for cells in self.cstrings.values_mut() {
+            cells.retain(|cell| *cell < address);
+        }
+        self.cstrings.retain(|_, cells| !cells.is_empty());
         Ok(())
     }
 
